@@ -10,7 +10,7 @@ RESP_OK = ("base", 201, None, "text/plain", "replaced")
 BEFORE_BEH = [("ret", ("none",)), ("abort", 403), ("abort", 418),
               ("abort", 599),         # a code without a reason phrase
               ("abortresp", ("base", 200, None, "text/plain", "stopped")),
-              ("throw", 1), ("exit",)]
+              ("throw", 1), ("exit",), ("throw", 11), ("meddle",)]
 AFTER_BEH = [("pass",), ("ret", ("resp", RESP_OK)), ("abort", 404),
              ("abort", 599),
              ("abortresp", ("base", 200, None, "text/plain", "after-abort")),
@@ -19,7 +19,8 @@ ENDPOINT_BEH = [("ret", ("str", "ok")), ("ret", ("none",)), ("ret", ("obj",)),
                 ("abort", 403), ("abort", 0), ("throw", 5), ("throw", 6),
                 ("abort", 420), ("abort", 409),
                 ("abortresp", ("base", 202, None, "text/plain", "ar")),
-                ("throw", 1), ("throw", 3), ("conn",),
+                ("throw", 1), ("throw", 3), ("conn",), ("throw", 11),
+                ("throw", 12),
                 ("ret", ("resp", ("nocontent", 204, None)))]
 LEAVES = ["endpoint", "pattern", "default", "404", "405", "debug", "pre",
           "file", "dir", "403", "debugroot"]
@@ -60,6 +61,13 @@ def oracle(ctx, sc, ans, trace):
             ctx.violation("hook-cannot-see-endpoint",
                           dict(detail, seen_handler=handler))
             break
+    # ... and so can the after hooks, whatever a before hook assigned
+    if dispatched and sc.leaf[0] in ENDPOINT_LEAVES:
+        for handler in getattr(sc, "seen_after", []):
+            if handler != "endpoint":
+                ctx.violation("after-hook-sees-another-endpoint",
+                              dict(detail, seen_handler=handler))
+                break
     if len(epos) != (1 if runs_endpoint else 0):
         ctx.violation("endpoint-ran-wrongly", detail)
     if epos:
